@@ -32,7 +32,49 @@ def run_property(prop: str, tier: str, prog: Program | None = None) -> Result:
         tb = traceback.extract_tb(e.__traceback__)[-1]
         res.error(f"checker crashed: {type(e).__name__}: {e} at "
                   f"{tb.filename.split('/')[-1]}:{tb.lineno}")
+    _downgrade_opaque(prog, res)
     return res
+
+
+def _downgrade_opaque(prog: Program, res: Result) -> None:
+    """A finding located in a function that delegates to helpers / tables the
+    rules cannot see through (outside the rule inventory and not reducible by
+    the normal form) is not a verdict: it becomes an analysis error naming
+    the obstacle.  Findings elsewhere are untouched."""
+    if not (prog.norm_report.get("new_functions")
+            or prog.norm_report.get("new_names")):
+        return
+    keep = []
+    for f in res.findings:
+        path, _, line = f.where.rpartition(":")
+        try:
+            fi = prog.function_at(path, int(line))
+        except ValueError:
+            fi = None
+        reasons = []
+        if fi is not None:
+            cands = [fi]
+            if fi.cls is not None:
+                # the same method further up the MRO (super() chains)
+                for c in prog.mro(fi.cls.name)[1:]:
+                    m = prog.classes[c].methods.get(fi.name) \
+                        if c in prog.classes else None
+                    if m is not None:
+                        cands.append(m)
+            for c in cands:
+                reasons += prog.opaque_context(c)
+        for q in f.context:
+            if q in prog.functions:
+                reasons += prog.opaque_context(prog.functions[q])
+        if reasons:
+            res.unrecognised(f.rule, f.key[:120], f.where,
+                             "the rule reported `" + f.msg[:160] + "`, but "
+                             f"{fi.short if fi else f.context[0]} " + "; ".join(sorted(set(reasons))[:3])
+                             + ": shape rules cannot see through that")
+            # the obligation stays undischarged, the finding is withdrawn
+        else:
+            keep.append(f)
+    res.findings = keep
 
 
 def main(argv: list[str] | None = None) -> int:
